@@ -172,6 +172,10 @@ func (s *lcServer) probeBindable() string {
 }
 
 func serverGoroutines() (n int, dump string) {
+	// Taking a goroutine profile costs CPU (a lot of it in a race build with hundreds of goroutines), and the loops
+	// that poll it have deadlines of their own: it counts as progress of the harness for the child watchdog, whose
+	// spin verdict is about server code that burns CPU while the harness waits passively.
+	sconn.NextSeq()
 	var buf bytes.Buffer
 	pprof.Lookup("goroutine").WriteTo(&buf, 2)
 	for _, g := range strings.Split(buf.String(), "\n\n") {
@@ -185,6 +189,7 @@ func serverGoroutines() (n int, dump string) {
 
 // serverGoroutines2 counts goroutines whose stack contains the given frame.
 func serverGoroutines2(frame string) (string, int) {
+	sconn.NextSeq()
 	var buf bytes.Buffer
 	pprof.Lookup("goroutine").WriteTo(&buf, 2)
 	n := 0
@@ -277,6 +282,11 @@ func c15setup(tier string, seed uint64) int {
 		// application's SetPort(0) / SetTLSPort(0) before a Restart that is to come up without it); then Stop
 		for _, v := range []struct{ l, how string }{{"plain", "config-set-port-0"}, {"plain", "SetPort(0)"}, {"both", "config-set-port-0"}, {"both", "SetPort(0)"}, {"both", "SetTLSPort(0)"}, {"tls", "SetTLSPort(0)"}} {
 			c15.gated = append(c15.gated, c15gated{Kind: "stop-after-port-switched-off", Listeners: v.l, Plain: v.how, Rep: rep})
+		}
+		// Start (or Restart) immediately followed by Stop, 40 times, on ONE processor: whatever a lifecycle call
+		// starts has not had a chance to run when the next call begins
+		for _, l := range []string{"plain", "both"} {
+			c15.gated = append(c15.gated, c15gated{Kind: "start-stop-at-once", Listeners: l, Rep: rep})
 		}
 		// Stop while all registered clients hang up (free-running: Stop's walk over the registry races with the
 		// connection goroutines finishing on their own)
@@ -401,7 +411,7 @@ func c15runGated(idx int, g c15gated) run.Result {
 	if g.Kind == "accept-fails-hard" {
 		return acceptFailsHard(idx, g)
 	}
-	if g.Kind == "stop-after-port-switched-off" {
+	if g.Kind == "stop-after-port-switched-off" || g.Kind == "start-stop-at-once" {
 		return stopAfterPortOff(idx, g)
 	}
 	var res run.Result
@@ -969,6 +979,11 @@ func stopAfterPortOff(idx int, g c15gated) run.Result {
 	defer cancel()
 	cmd := exec.CommandContext(ctx, self, "c15-portoff-victim", g.Listeners, g.Plain)
 	cmd.Env = append(os.Environ(), "GORACE=halt_on_error=0 history_size=3")
+	if g.Kind == "start-stop-at-once" {
+		// one processor: the goroutines a call has just started have not run yet when the next call begins
+		cmd = exec.CommandContext(ctx, self, "c15-startstop-victim", g.Listeners)
+		cmd.Env = append(os.Environ(), "GORACE=halt_on_error=0 history_size=3", "GOMAXPROCS=1")
+	}
 	var stderr bytes.Buffer
 	cmd.Stderr = &stderr
 	done := make(chan struct{})
@@ -1103,6 +1118,55 @@ func c15PortOffVictimMain(args []string) int {
 	}
 	s.srv.Stop()
 	res.Count("port_switched_off_runs", 1)
+	return emit()
+}
+
+// c15StartStopVictimMain: `vcheck c15-startstop-victim <listeners>` with GOMAXPROCS=1.
+func c15StartStopVictimMain(args []string) int {
+	var res run.Result
+	emit := func() int {
+		b, _ := json.Marshal(&res)
+		fmt.Printf("RESULT %s\n", b)
+		os.Stdout.Sync()
+		os.Exit(0)
+		return 0
+	}
+	if len(args) < 1 {
+		return 2
+	}
+	listeners := args[0]
+	sig := "C15:start-stop-at-once:" + listeners
+	s := newLcServer(listeners)
+	if s == nil {
+		res.Inconclusive = "pki unavailable"
+		return emit()
+	}
+	for round := 0; round < 40; round++ {
+		var err error
+		if round%3 == 2 {
+			err = s.srv.Restart()
+		} else {
+			err = s.srv.Start()
+		}
+		if err != nil {
+			if !listeningSocketIsOurs(s.plain) && !listeningSocketIsOurs(s.tls) {
+				continue // somebody else took the port meanwhile
+			}
+			res.Violate(sig+":start", "Start after Stop works", fmt.Sprintf("round %d: %v", round, err), nil)
+			return emit()
+		}
+		stopErr := s.srv.Stop()
+		// Stop has returned: no accept loop may exist any more - not even one that has not run its first statement
+		all := make([]byte, 1<<20)
+		all = all[:runtime.Stack(all, true)]
+		for _, g := range strings.Split(string(all), "\n\n") {
+			if strings.Contains(g, "(*Server).serve(") || strings.Contains(g, "(*Server).tlsServe(") || strings.Contains(g, "created by github.com/cybergarage/go-redis/redis.(*Server).start") {
+				res.Violate(sig+":accept-loop-after-stop", "after Stop returns no server goroutine remains", fmt.Sprintf("round %d: Stop (error: %v) returned while an accept loop goroutine started by the preceding Start still exists:\n%s", round, stopErr, clipS(g, 900)), nil)
+				return emit()
+			}
+		}
+		res.Count("start_stop_rounds", 1)
+	}
 	return emit()
 }
 
@@ -1441,6 +1505,14 @@ func stopStorm(res *run.Result, s *lcServer, ctl *sched.Ctl, idx int, rep int, p
 	// every connection made to the TLS port without a handshake must have been ended by the server
 	for _, rc := range raws {
 		if !clientClosed(&tcpClient{c: rc}) {
+			// The dialers go on until after Stop has returned, and the loopback port space is shared with every
+			// other process: once Stop has freed the port somebody else may listen on it. Only a connection whose
+			// server-side socket is OURS counts.
+			if cp := portOf(rc.LocalAddr()); cp == 0 || !acceptedSocketIsOurs(s.tls, cp) {
+				res.Count("storm_connections_that_reached_a_foreign_listener", 1)
+				rc.Close()
+				continue
+			}
 			res.Violate(prop+":stop-under-connect-storm:handshaking-client-open", "after Stop returns every client connection has been closed", "a connection made to the TLS port during the storm (no ClientHello sent) saw neither EOF nor reset within 3 s after Stop returned", desc)
 			for _, rc := range raws {
 				rc.Close()
@@ -1657,10 +1729,11 @@ var _ = resp.Cmd
 func init() {
 	extra["c15-accept-victim"] = c15AcceptVictimMain
 	extra["c15-portoff-victim"] = c15PortOffVictimMain
+	extra["c15-startstop-victim"] = c15StartStopVictimMain
 	run.Register(&run.Prop{
 		ID: "C15", Level: "fault_enumeration",
 		Rule: func(tier string) string {
-			return "two parts. (gated, hook H2) a controller parks goroutines at named schedule points and releases them in a chosen order: Restart vs the exiting accept loops for {plain, TLS, both} listeners with each old loop's exit (and its deferred close) placed before Stop returns / after the new listeners are open / concurrently (3, 3 and 9 placements); Stop vs a connection accepted while Stop is between its two phases; Stop vs connection goroutines parked at their exit point; Stop in the middle of a connect storm (16 dialing goroutines, repeated; a connection that answers after Stop returned, or that is still registered at a fixed point, is a violation); Stop while a client whose handler is still running has already gone away by reset or FIN (the reset is known to have arrived when the kernel no longer lists the server-side socket); Stop while 24..64 registered clients hang up by FIN and reset at the same moment (free-running, repeated). What Stop promises is probed whenever Stop returns, with or without an error. Stop while a client of the TLS port has connected but not sent its ClientHello (it must see EOF or a reset within 3 s). Restart while an accepted connection's goroutine is held at its first step (schedule point conn.accepted), before it has registered: the connection must not be served afterwards. A Start that fails in its TLS half (the TLS port is held by another socket) must leave the plain port bindable, and after Stop a new Start must work. A transient Accept failure: every free descriptor of the process is taken, one client per port is left waiting in the listen queue so that Accept fails with EMFILE, the descriptors are released, and every port must serve again. A hard Accept failure: the scenario (Start, six service requests per port, Stop and its postconditions, Start, six requests, Restart, six requests) runs in a victim process under strace fault injection, every second accept4 call failing with one of ENOBUFS, EPROTO, EHOSTUNREACH, EMFILE (thorough: also ENOMEM, EPERM, ENETDOWN, ENFILE, EOPNOTSUPP) - errors the runtime does not mark temporary as well as ones it does; the injections are counted from strace's log. A port switched off in the configuration of the running server (a client's CONFIG SET port 0, the application's SetPort(0) or SetTLSPort(0)) followed by Stop, in a victim process: Stop must return (10 s watchdog; the verdict is structural - Stop parked waiting for the accept loops while a loop is parked in Accept on a listener nobody closed), the ports the server HELD must be free, and with the port switched on again a new Start serves. Postconditions probed after everything is released: dial+PING on every enabled port (twice), bind probe, client-side EOF, Conns() empty, goroutine profile. (histories) ALL call sequences over {Start, Stop, Restart} up to length 4 (quick) / 6 (thorough) x {plain, plain+TLS} with 0..3 clients connecting, idling or disconnecting between calls (and, on the TLS port, clients that a common-name rule refuses after their handshake); after each call the promise of that call is probed, and at quiescent instants len(Conns()) must equal the number of client sockets held open (waiting on the conn.deregistered point, not on time). Start on a running server is tagged start-while-running. A goroutine leak is only reported when the count stays above baseline for the whole grace window; a goroutine parked at its own schedule point after Stop returned is a strict violation. Children are race-detector builds. distinct = scenario/sequence"
+			return "two parts. (gated, hook H2) a controller parks goroutines at named schedule points and releases them in a chosen order: Restart vs the exiting accept loops for {plain, TLS, both} listeners with each old loop's exit (and its deferred close) placed before Stop returns / after the new listeners are open / concurrently (3, 3 and 9 placements); Stop vs a connection accepted while Stop is between its two phases; Stop vs connection goroutines parked at their exit point; Stop in the middle of a connect storm (16 dialing goroutines, repeated; a connection that answers after Stop returned, or that is still registered at a fixed point, is a violation); Stop while a client whose handler is still running has already gone away by reset or FIN (the reset is known to have arrived when the kernel no longer lists the server-side socket); Stop while 24..64 registered clients hang up by FIN and reset at the same moment (free-running, repeated). What Stop promises is probed whenever Stop returns, with or without an error. Stop while a client of the TLS port has connected but not sent its ClientHello (it must see EOF or a reset within 3 s). Restart while an accepted connection's goroutine is held at its first step (schedule point conn.accepted), before it has registered: the connection must not be served afterwards. A Start that fails in its TLS half (the TLS port is held by another socket) must leave the plain port bindable, and after Stop a new Start must work. A transient Accept failure: every free descriptor of the process is taken, one client per port is left waiting in the listen queue so that Accept fails with EMFILE, the descriptors are released, and every port must serve again. A hard Accept failure: the scenario (Start, six service requests per port, Stop and its postconditions, Start, six requests, Restart, six requests) runs in a victim process under strace fault injection, every second accept4 call failing with one of ENOBUFS, EPROTO, EHOSTUNREACH, EMFILE (thorough: also ENOMEM, EPERM, ENETDOWN, ENFILE, EOPNOTSUPP) - errors the runtime does not mark temporary as well as ones it does; the injections are counted from strace's log. A port switched off in the configuration of the running server (a client's CONFIG SET port 0, the application's SetPort(0) or SetTLSPort(0)) followed by Stop, in a victim process: Stop must return (10 s watchdog; the verdict is structural - Stop parked waiting for the accept loops while a loop is parked in Accept on a listener nobody closed), the ports the server HELD must be free, and with the port switched on again a new Start serves. Start or Restart immediately followed by Stop, 40 times in a victim process that runs on ONE processor (what a call has started has not run yet when the next begins): when Stop returns no accept-loop goroutine may exist. Postconditions probed after everything is released: dial+PING on every enabled port (twice), bind probe, client-side EOF, Conns() empty, goroutine profile. (histories) ALL call sequences over {Start, Stop, Restart} up to length 4 (quick) / 6 (thorough) x {plain, plain+TLS} with 0..3 clients connecting, idling or disconnecting between calls (and, on the TLS port, clients that a common-name rule refuses after their handshake); after each call the promise of that call is probed, and at quiescent instants len(Conns()) must equal the number of client sockets held open (waiting on the conn.deregistered point, not on time). Start on a running server is tagged start-while-running. A goroutine leak is only reported when the count stays above baseline for the whole grace window; a goroutine parked at its own schedule point after Stop returned is a strict violation. Children are race-detector builds. distinct = scenario/sequence"
 		},
 		Exhaustive:    func(string) bool { return true },
 		Assumptions:   []string{"TLS listeners are configured through the file-based path with a PKI minted at run time", "wall-clock watchdogs only produce 'inconclusive'"},
@@ -1674,6 +1747,42 @@ func init() {
 }
 
 // listeningSocketIsOurs reports whether this process holds a LISTEN socket on the TCP port.
+func portOf(a net.Addr) int {
+	if t, ok := a.(*net.TCPAddr); ok {
+		return t.Port
+	}
+	return 0
+}
+
+// acceptedSocketIsOurs: is the server-side socket of the connection (server port, client port) open in THIS process?
+func acceptedSocketIsOurs(serverPort, clientPort int) bool {
+	mine := map[string]bool{}
+	if es, err := os.ReadDir("/proc/self/fd"); err == nil {
+		for _, e := range es {
+			if t, err := os.Readlink("/proc/self/fd/" + e.Name()); err == nil && strings.HasPrefix(t, "socket:[") {
+				mine[strings.TrimSuffix(strings.TrimPrefix(t, "socket:["), "]")] = true
+			}
+		}
+	}
+	local, remote := fmt.Sprintf(":%04X", serverPort), fmt.Sprintf(":%04X", clientPort)
+	for _, f := range []string{"/proc/net/tcp", "/proc/net/tcp6"} {
+		b, err := os.ReadFile(f)
+		if err != nil {
+			continue
+		}
+		for _, l := range strings.Split(string(b), "\n")[1:] {
+			fs := strings.Fields(l)
+			if len(fs) < 10 || !strings.HasSuffix(fs[1], local) || !strings.HasSuffix(fs[2], remote) {
+				continue
+			}
+			if mine[fs[9]] {
+				return true
+			}
+		}
+	}
+	return false
+}
+
 func listeningSocketIsOurs(port int) bool {
 	mine := map[string]bool{}
 	if es, err := os.ReadDir("/proc/self/fd"); err == nil {
